@@ -29,7 +29,7 @@ structure Contract {c : Cfg} (x : Exec c) (n0 : Nat) : Prop where
   stopCalled : (x.σ n0).stop ≠ .idle
   quiet : Quiet (x.σ n0)
   contract : ∀ n, n0 ≤ n → ∀ l, x.ℓ n = some l → l.retiring = false
-  collFair : ∀ n, n0 ≤ n → (x.σ n).cpc ≠ .done → ∃ m, n ≤ m ∧ ∃ l, x.ℓ m = some l ∧ l.isColl = true
+  collFair : ∀ n, n0 ≤ n → collActive (x.σ n).cpc = true → ∃ m, n ≤ m ∧ ∃ l, x.ℓ m = some l ∧ l.isColl = true
   stopFair : ∀ n, n0 ≤ n → stopEnabled c (x.σ n) → ∃ m, n ≤ m ∧ ∃ l, x.ℓ m = some l ∧ l.isStop = true
 
 theorem Contract.keeps {c : Cfg} {x : Exec c} {n0 : Nat} (hc : Contract x n0) :
